@@ -257,6 +257,13 @@ func runC15(t *testing.T, s C15Scenario) (res Result) {
 		accepted := verr == nil
 		if s.Via == "head" {
 			accepted = verr == nil && headRet != nil && vh.Equal(headRet, cand)
+			if s.Joiner && !accepted && verr == nil {
+				// with two callers either of them may be the one that took the candidate through the search;
+				// acceptance is what the Syncer holds as its subjective head afterwards
+				if lh, err := e.syncer.Head(ctx); err == nil && vh.Equal(lh, cand) {
+					accepted = true
+				}
+			}
 			if verr != nil {
 				res.failf("Syncer.Head failed: %v", verr)
 				return
